@@ -326,3 +326,14 @@ Example C13_segments_example :
   /\ Forall (Forall nonempty) (segments [Step (mk_ev 1 [Some 1]); Step (mk_ev 2 [Some 2]); Reset; Step (mk_ev 3 [Some 3])]).
 Proof. split; [reflexivity|]. simpl. repeat (constructor; try discriminate). Qed.
 Print Assumptions C13_segments_example.
+
+(* ------------------------------------------------------------------------------------------------ limit of the model: double range *)
+(* KNOWN FINDING answer-intermediate-overflow-beyond-double-range: the exact-rational model (= the documented decision)
+   answers "do not terminate" on the two corpus witnesses corpus/C13/poprel-median-overflow-*.json, the double-precision
+   implementation answers True; the model does not represent the double range, the class is decided by the oracle only. *)
+Theorem C13_poprel_exact_answer_on_overflow_witness :
+  Forall nonempty overflow_witness_1 /\ Forall nonempty overflow_witness_2
+  /\ run (pr_step repaired (1 # 2) 1) (pop_init repaired (1 # 2) 1) overflow_witness_1 = [Ok false; Ok false; Ok false]
+  /\ run (pr_step repaired (1 # 100) 0) (pop_init repaired (1 # 100) 0) overflow_witness_2 = [Ok false; Ok false].
+Proof. exact poprel_exact_answer_on_overflow_witness. Qed.
+Print Assumptions C13_poprel_exact_answer_on_overflow_witness.
